@@ -191,7 +191,7 @@ func scenario(p params, bounds []int) *vexp.Scenario {
 			launches := 0
 			a.Launch = func(act *vsys.Act, ctx vivid.ActorContext) {
 				launches++
-				if p.site == "sched" && launches == 1 {
+				if p.site == "sched" { // every incarnation arms its timer in OnLaunch; only the first one fails on it
 					if err := ctx.Scheduler().Once(ctx.Ref(), time.Second, vsys.Msg{ID: "boomS"}, vivid.WithSchedulerReference("j")); err != nil {
 						x.Fail("harness", "Once: %v", err)
 					}
@@ -489,6 +489,17 @@ func scenario(p params, bounds []int) *vexp.Scenario {
 					if killedN != 0 || !reg[path] {
 						rule("C09", "zombie-inert", "%s must be a zombie (registered, no termination notice): killed-events=%d registered=%v", path, killedN, reg[path])
 					}
+				}
+			}
+			if p.site == "sched" && eff["/u/t/s/a"] == restarted {
+				n := 0
+				for _, en := range w.EntriesOf("/u/t/s/a") {
+					if en.Type == "Msg" && en.Detail == "boomS" {
+						n++
+					}
+				}
+				if n != 2 {
+					rule("C08", "restart-resets-state", "/u/t/s/a arms a timer in OnLaunch, failed on its message and was restarted: the restarted actor armed it again in its own OnLaunch, yet the scheduled message was seen %d times in all (expected 2: the restart must not take away what the new incarnation set up)", n)
 				}
 			}
 			if eff["/u/t/s/a"] == resumed {
